@@ -29,9 +29,9 @@ func init() {
 	sim.RegisterKind("errorpath-success", "C19")
 	sim.RegisterKind("evenport", "C19")
 	sim.RegisterKind("family-default", "C19")
-	sim.RegisterKind("relay-unreachable", "C19")
+	sim.RegisterKind("relay-unreachable", "C19", "C04", "C05")
 	sim.RegisterKind("request-unanswered", "C19")
-	sim.RegisterKind("relay-shared", "C19", "C20")
+	sim.RegisterKind("relay-shared", "C19", "C20", "C04")
 	sim.RegisterKind("lifetime-not-in-force", "C19", "C06")
 }
 
@@ -760,6 +760,17 @@ func runC19Real(t *testing.T, rng *rand.Rand, rec *sim.Rec, tier string, caseNo 
 		})
 		if m == nil || m.Class != wire.ClassSuccess {
 			continue
+		}
+		// somebody else is the last client the listener heard from
+		if len(live) > 1 {
+			other := live[(i+1)%len(live)]
+			if bm := other.do(wire.MethodBinding, nil); bm != nil {
+				if ip, port, ok := bm.XorAddr(wire.AttrXORMappedAddress); ok {
+					if la := other.c.LocalAddr().(*net.UDPAddr); !ip.Equal(la.IP) || port != la.Port {
+						rec.Violate("binding-mapped-addr", "real", "Binding response reports %s:%d, the request came from %s", ip, port, la)
+					}
+				}
+			}
 		}
 		tag := []byte(fmt.Sprintf("to-relay-%d-%d", i, rng.Intn(1000000)))
 		if _, err := peer.WriteToUDP(tag, rc.relay); err != nil {
